@@ -9,7 +9,7 @@ ENGINES = [
     {"name": "cobweb-facts", "path": "driver/", "serves_properties": ALL,
      "kind_free_text": "E1: rustc_private driver (RUSTC_WORKSPACE_WRAPPER under cargo +nightly check) dumping resolved MIR (with the statements of promoted constants), ADTs, impls, visibility of /repo's current tree as JSON facts; decides nothing"},
     {"name": "rules", "path": "rules/", "serves_properties": ALL,
-     "kind_free_text": "E2: Python rule engine over the MIR facts: CFG/dominators, must-pass-through and path-counting rules (intra- and interprocedural), local provenance, loop shapes and canonical collection sources, variant-arm association, call graph / who-may-call, sibling cross-checks, symbolic sequence algebra for the FIFO wrapper, who-writes / who-reads tables; semantics-preserving view normalisations (new-helper inlining with variant threading - including variant-qualified payload facts carried through ?, ok_or and map_err and the discriminant of a value behind a shared reference - and constant propagation, const-generic specialisation, arm splitting, parameter un-bundling and re-ordering, moved-function and rename detection, closure devirtualisation and inlining, per-site copies of wrapper closures, extend / for_each / map / Option-Result combinator and predicate desugaring, newtype erasure, sub-struct flattening with reference folding and split whole-group writes); the plain and the normalised view are both evaluated when the plain view alarms and the verdict is merged per rule group, a group's pass being trusted only if it covers at least two thirds of the subjects pinned for it (rules/group_counts.json); the deciding step of every check"},
+     "kind_free_text": "E2: Python rule engine over the MIR facts: CFG/dominators, must-pass-through and path-counting rules (intra- and interprocedural), local provenance, loop shapes and canonical collection sources, variant-arm association, call graph / who-may-call, sibling cross-checks, symbolic sequence algebra for the FIFO wrapper, who-writes / who-reads tables; semantics-preserving view normalisations (new-helper inlining with variant threading - including variant-qualified payload facts carried through ?, ok_or and map_err and the discriminant of a value behind a shared reference - and constant propagation, const-generic specialisation, arm splitting, parameter un-bundling and re-ordering, moved-function and rename detection, closure devirtualisation and inlining, per-site copies of wrapper closures, extend / for_each / map / Option-Result combinator and predicate desugaring, splitting of loops over chain(a, b), rename assignment by pinned callee sets, newtype erasure, sub-struct flattening with reference folding and split whole-group writes); the plain and the normalised view are both evaluated when the plain view alarms and the verdict is merged per rule group, a group's pass being trusted only if it covers at least two thirds of the subjects pinned for it (rules/group_counts.json); the deciding step of every check"},
     {"name": "witness", "path": "witness/", "serves_properties": ["C02", "C03", "C04", "C05", "C06", "C07", "C09", "C10", "C13", "C14", "C16"],
      "kind_free_text": "E3 (thorough tier): rustdoc compile_fail,E0xxx witnesses with compiling twins, path-depending on /repo (cargo +nightly test --doc --offline)"},
     {"name": "clippy-xref", "path": "clippy/", "serves_properties": ["C07", "C18"],
